@@ -59,6 +59,8 @@ class Module:
                     for t in n.targets:
                         if isinstance(t, ast.Name):
                             self.assigns[t.id] = n.value
+                elif isinstance(n, ast.AnnAssign) and isinstance(n.target, ast.Name) and n.value is not None:
+                    self.assigns[n.target.id] = n.value
                 elif isinstance(n, ast.Import):
                     for a in n.names:
                         if a.asname:
